@@ -29,7 +29,11 @@ func runC08(x *mc.X) {
 	defer w.Close()
 	// "two": every second exchange goes through a second transport over the same store (nothing a transport
 	// remembers outside the store may matter)
-	w.Alternate = mc.Pick(x, "transports", []string{"one", "two"}) == "two"
+	transports := mc.Pick(x, "transports", []string{"one", "two", "one, after an unrelated exchange"})
+	w.Alternate = transports == "two"
+	if transports == "one, after an unrelated exchange" {
+		primeUnrelated(x, w)
+	}
 	lm := httpDate(w.Epoch.Add(-secs(100)))
 	baseH := func(ccv string) [][2]string {
 		h := H("Vary", "X-A")
